@@ -47,6 +47,16 @@ type Case struct {
 	WStream bool      `json:"w_stream"`
 	RStream bool      `json:"r_stream"`
 	Corr    *Corr     `json:"corr,omitempty"`
+	Pad     int       `json:"pad,omitempty"` // that many more (simple, distinct) delegations in the set: sizes around the CBOR list-head boundaries
+}
+
+func padTokens(n int) []tok.Tok {
+	var out []tok.Tok
+	for i := 0; i < n; i++ {
+		out = append(out, tok.Tok{Dlg: &tok.Dlg{Iss: tok.KeyRef{Alg: keys.Ed25519, Idx: i % 4}, Aud: tok.KeyRef{Alg: keys.Ed25519, Idx: (i + 1) % 4}, Sub: "iss", Cmd: "/pad",
+			Nonce: []byte(fmt.Sprintf("pad-nonce-%04d", i))}})
+	}
+	return out
 }
 
 var corrKinds = []string{"flip-in-token", "wrong-key", "truncate-entry", "mislabel", "zero-section", "oversize-section", "other-codec-cid", "flip-anywhere", "drop-last-byte"}
@@ -128,7 +138,10 @@ func keyset(r container.Reader) []string {
 
 func run(c *h.Ctx, cs Case) {
 	var sealed []sealedTok
-	for _, d := range cs.Toks {
+	if cs.Pad > 0 {
+		c.P.Class(fmt.Sprintf("pad=%d", cs.Pad))
+	}
+	for _, d := range append(append([]tok.Tok{}, cs.Toks...), padTokens(cs.Pad)...) {
 		tk, priv, err := tok.Build(d)
 		if err != nil {
 			continue
@@ -362,6 +375,12 @@ func draw(t *rapid.T) Case {
 	n := rapid.IntRange(0, 6).Draw(t, "n")
 	for i := 0; i < n; i++ {
 		cs.Toks = append(cs.Toks, tok.Gen(t, tok.GenCfg{Algs: keys.AllAlgs, NoTopNull: true, OnlyFuture: true, Values: val.Cfg{Depth: 1, MaxLen: 2, SafeInts: true, NoFloat: true, Big: true}}))
+	}
+	if rapid.IntRange(0, 19).Draw(t, "padded") == 0 {
+		cs.Pad = rapid.SampledFrom([]int{17, 18, 19, 20, 21, 22, 23, 24, 25, 250, 255, 256, 257}).Draw(t, "pad") - n
+		if cs.Pad < 0 {
+			cs.Pad = 0
+		}
 	}
 	cs.Order = rapid.SliceOfN(rapid.IntRange(0, 5), 1, 6).Draw(t, "order")
 	cs.Format = rapid.SampledFrom(ctr.Formats).Draw(t, "format")
